@@ -43,9 +43,11 @@ var parserWorkReceiveChannel = func() chan<- jobIn {
 	for i := 0; i < workerCount; i++ {
 		go func() {
 			var p fastjson.Parser
+			verifWID := verifJSONWorkerID()
 
 		getWorkLoop:
 			for job := range inChan {
+				verifJSONWorkerEvent(verifWID, job.outChan, "wtake", job.lines[0])
 				outJobs := make([]jobOutRecord, len(job.lines))
 				for i := range outJobs {
 					out := &outJobs[i]
@@ -70,9 +72,13 @@ var parserWorkReceiveChannel = func() chan<- jobIn {
 
 					out.record = NewRecord(values, false, time.Time{})
 				}
+				verifJSONWorkerDelay(verifWID, job.lines[0])
+				verifJSONWorkerEvent(verifWID, job.outChan, "wsel", job.lines[0])
 				select {
 				case job.outChan <- outJobs:
+					verifJSONWorkerEvent(verifWID, job.outChan, "wsent", job.lines[0])
 				case <-job.ctx.Done():
+					verifJSONWorkerEvent(verifWID, job.outChan, "wdrop", job.lines[0])
 					continue getWorkLoop
 				}
 			}
